@@ -241,4 +241,100 @@ theorem tie_get_state_type_some (st : State) (m : VModel) :
   simp [row, elem]
   rfl
 
+/-! ## state elements: writer `_create_state_node`, reader `_parse_state` -/
+
+theorem foldlM_leaves (c : Codec) (st : State) (f : StateNode → (XName × String) → Res StateNode)
+    (hf : ∀ node e, f node e = match writeField c st e with
+        | .ok ls => .ok { node with leaves := node.leaves ++ ls } | .error x => .error x)
+    (tb : List (XName × String)) (node : StateNode) :
+    tb.foldlM f node = match writeLeaves c st tb with
+      | .ok l => .ok { node with leaves := node.leaves ++ l } | .error x => .error x := by
+  induction tb generalizing node with
+  | nil => simp [List.foldlM, writeLeaves, pure, Except.pure]
+  | cons e es ih =>
+    simp only [List.foldlM, hf, writeLeaves, bind, Except.bind]
+    cases writeField c st e with
+    | error x => rfl
+    | ok a =>
+      simp only [ih]
+      cases writeLeaves c st es with
+      | error x => rfl
+      | ok b => simp [List.append_assoc]
+
+/-- `_create_state_node`: the state element carries `StateType[T].value` as tag and, walking
+    `zip(xml_fields, fields)` in order, one leaf per name (two for the position tuple, from `state_val[0]`, `state_val[1]`), each
+    with the text of `_create_sub_element` — the model's `createStateNode`, error branches included. -/
+theorem tie_create_state_node (c : Codec) (T : TType) (st : State) :
+    Gen.Sol_create_state_node c T st = createStateNode c T st := by
+  unfold Gen.Sol_create_state_node
+  simp only [tie_state_tag, tie_xml_fields, tie_fields, bind, Except.bind]
+  rw [foldlM_leaves c st _ (by
+    intro node e
+    obtain ⟨x, f⟩ := e
+    simp only [CR.PyS.getattr, writeField]
+    cases CR.Sol.getattr st f with
+    | none => rfl
+    | some v =>
+      cases x with
+      | one n =>
+        simp only [isTuple, nameOf, tie_create_sub_element, bind, Except.bind, pure, Except.pure, Bool.false_eq_true, if_false]
+        cases subText c v <;> rfl
+      | pair a b =>
+        cases v <;> simp [isTuple, tupleNames, List.zipIdx, index, List.foldlM, tie_create_sub_element, subText, bind, Except.bind, pure, Except.pure])]
+  unfold createStateNode table
+  cases writeLeaves c st ((xmlFields T).zip (fields T)) <;> simp [pure, Except.pure]
+
+theorem foldlM_fields (c : Codec) (l : List Leaf) (g : List (String × FVal) → (XName × String) → Res (List (String × FVal)))
+    (hg : ∀ acc e, g acc e = match parseField c l e with
+        | .ok p => .ok (acc ++ [p]) | .error x => .error x)
+    (tb : List (XName × String)) (acc : List (String × FVal)) :
+    tb.foldlM g acc = match mapRes (parseField c l) tb with
+      | .ok kw => .ok (acc ++ kw) | .error x => .error x := by
+  induction tb generalizing acc with
+  | nil => simp [List.foldlM, mapRes, pure, Except.pure]
+  | cons e es ih =>
+    simp only [List.foldlM, hg, mapRes, bind, Except.bind]
+    cases parseField c l e with
+    | error x => rfl
+    | ok a =>
+      simp only [ih]
+      cases mapRes (parseField c l) es with
+      | error x => rfl
+      | ok b => simp [List.append_assoc]
+
+theorem construct_rows (T : TType) (kw : List (String × FVal)) :
+    CR.PyS.construct Gen.Sol_reader_state_types T kw =
+      if readerStateTypes.contains T then CR.Sol.construct T kw else .error .key := by
+  cases T <;> rfl
+
+/-- `_parse_state`: tag check, then for every row of `zip(xml_fields, fields)` the field is read with `float()` (the tuple: two
+    floats into an array; the name "time": `int()`), nothing else touches the value; finally the class looked up in `state_types`
+    is instantiated — the model's `parseState` (with the repaired key table), error branches included. -/
+theorem tie_parse_state (c : Codec) (T : TType) (n : StateNode) :
+    Gen.Sol_parse_state c T n = parseState c T n := by
+  unfold Gen.Sol_parse_state parseState parseStateWith
+  simp only [tie_state_tag, tie_xml_fields, tie_fields, bind, Except.bind]
+  by_cases ht : n.tag = stateTag T
+  · simp only [ht, decide_true, Bool.not_true, Bool.false_eq_true, if_false, bne_self_eq_false]
+    rw [foldlM_fields c n.leaves _ (by
+      intro acc e
+      obtain ⟨x, f⟩ := e
+      simp only [parseField]
+      cases x with
+      | one nm =>
+        by_cases h : nm = "time"
+        · subst h
+          simp [isTuple, nameOf, tie_parse_sub_element_int, bind, Except.bind, pure, Except.pure]
+          cases subInt c n.leaves "time" <;> rfl
+        · simp [isTuple, nameOf, h, tie_parse_sub_element_float, bind, Except.bind, pure, Except.pure]
+          cases subNum c n.leaves nm <;> rfl
+      | pair a b =>
+        simp [isTuple, tupleNames, List.mapM_cons, List.mapM_nil, tie_parse_sub_element_float, bind, Except.bind, pure, Except.pure]
+        cases subNum c n.leaves a with
+        | error x => rfl
+        | ok va => cases subNum c n.leaves b <;> simp [npArray2])]
+    unfold table
+    cases mapRes (parseField c n.leaves) ((xmlFields T).zip (fields T)) <;> simp [construct_rows, pure, Except.pure]
+  · simp [ht, throw, throwThe, MonadExceptOf.throw]
+
 end CR.Sol
